@@ -340,11 +340,46 @@ def run(ctx):
                     word = rnd.choice(["none", "none", "None", "null"])
                     kind, bad = f"class of a {what} replaced by `{word}`", re.sub(pattern, lambda m: f"{m.group(1)} {word}{m.group(2) or rnd.choice([' 3', ' 0.000 0.500 1.000', ' 100'])}", text, count=1, flags=re.M)
                     ctx.hit("document:class name replaced by none")
+                must_reject = None
+                if k % 5 == 2:
+                    import re
+
+                    lines = text.split("\n")
+                    which = ["term parameter", "output-only key in an input variable", "resolution", "term parameter"][(i + k // 5) % 4]
+                    if which == "term parameter":
+                        cands = [j for j, ln in enumerate(lines) if re.match(r"\s*term: \S+ (?!Function|Linear)\S+( \S+)+$", ln) and re.search(r" -?\d", ln)]
+                        if cands:
+                            tables = [j for j in cands if " Discrete " in lines[j]]
+                            j = rnd.choice(tables if (tables and rnd.random() < 0.6) else cands)
+                            toks = lines[j].split(" ")
+                            nums = [q for q in range(len(toks)) if re.fullmatch(r"-?\d+\.\d+", toks[q])]
+                            if nums:
+                                toks[rnd.choice(nums)] = rnd.choice(["x", "abc", "1,5", "0.5.1", "--1"])
+                                lines[j] = " ".join(toks)
+                                must_reject = "a term parameter that is not a number"
+                    elif which == "output-only key in an input variable":
+                        cands = [j for j, ln in enumerate(lines) if ln.startswith("InputVariable:")]
+                        if cands:
+                            j = rnd.choice(cands)
+                            lines.insert(j + 1, "  " + rnd.choice(["defuzzifier: Centroid 100", "default: 0.500", "lock-previous: true", "aggregation: Maximum"]))
+                            must_reject = "a key of output variables inside an input variable"
+                    else:
+                        cands = [j for j, ln in enumerate(lines) if re.match(r"\s*defuzzifier: (Centroid|Bisector|\w+OfMaximum) \d+$", ln)]
+                        if cands:
+                            j = rnd.choice(cands)
+                            lines[j] = re.sub(r"\d+$", rnd.choice(["inf", "-inf", "1e999", "nan", "ten"]), lines[j])
+                            must_reject = "a resolution that is not an integer"
+                    if must_reject:
+                        kind, bad = must_reject, "\n".join(lines)
+                        ctx.hit("document:" + must_reject)
                 importer = shared_importer if k % 2 else fl.FllImporter()
                 with hostile(fl, ENVIRONMENTS[(i // 2) % len(ENVIRONMENTS)] if i % 2 else None, ctx):
                     try:
                         importer.from_string(bad)
                         ctx.hit("document mutant accepted")
+                        if must_reject:
+                            ctx.evaluated()
+                            ctx.violation(f"a document with {must_reject} is accepted", {"text": bad[:1500]}, "rejected", "imported")
                     except Exception:
                         ctx.hit("document mutant rejected")
                     if k % 2:
@@ -412,7 +447,7 @@ def run(ctx):
                 ctx.sample("injected", {"class": cls, "valid": base, "broken": bad})
         probe.report(ctx)
         reach.report(ctx)
-    ctx.require("document:class name replaced by none")
+    ctx.require("document:class name replaced by none", "document:a term parameter that is not a number", "document:a key of output variables inside an input variable", "document:a resolution that is not an integer")
     ctx.require("workload:input and output variable of one name", "compare:accepted proposition binds a term of its variable", "compare:used importer vs new importer", "event:one importer object used for rejected and valid documents", *[f"environment:{e}" for e in ENVIRONMENTS])
     ctx.require("hook:Rule.parse", "hook:Rule.load", "hook:Antecedent.load", "hook:Consequent.load", "hook:RuleBlock.load_rules", "hook:FllImporter.from_string", "mutant accepted", "mutant rejected", "document mutant accepted", "document mutant rejected", "accepted rule evaluated", "accepted document exported", "event:reload of a loaded rule", "refused for an engine without components", "refused for an engine without output variables", "event:reload after a term was renamed is refused", "long antecedent refused")
     if ctx.nshards == 1:
